@@ -102,9 +102,7 @@ func (c *connRun) onCall(call *wl.Call) {
 	c.callAt = append(c.callAt, time.Now())
 	c.calls = append(c.calls, call)
 	// which request is being served: the number of complete replies written so far
-	c.collect()
-	vals, _, _, _ := c.decodeReplies()
-	ri := len(vals)
+	ri := c.serving()
 	c.reqOfCall = append(c.reqOfCall, ri)
 	if ri < len(c.Reqs) && mapIterating[c.Reqs[ri].Name] {
 		// Go map iteration order cannot be seeded: the canonical log keeps only the method
@@ -112,6 +110,14 @@ func (c *connRun) onCall(call *wl.Call) {
 	} else {
 		c.S.Logf(c.key(), "call r%d %s", ri, call.Sig)
 	}
+}
+
+// serving is the index of the request being served: the number of complete replies written so far plus
+// the replies that could not be written because the client was gone (one Write per reply).
+func (c *connRun) serving() int {
+	c.collect()
+	vals, _, _, _ := c.decodeReplies()
+	return len(vals) + c.P.Ends[1].FailedWrites
 }
 
 // setReqs installs the client script.
